@@ -2,12 +2,13 @@ package printer
 
 import (
 	"fmt"
-	"strconv"
 	"strings"
 
 	"reflect"
 
 	"github.com/graphql-go/graphql/language/ast"
+	"github.com/graphql-go/graphql/language/lexer"
+	"github.com/graphql-go/graphql/language/source"
 	"github.com/graphql-go/graphql/language/visitor"
 )
 
@@ -86,9 +87,61 @@ func getDescription(raw interface{}) string {
 		if strings.ContainsRune(desc, '\n') {
 			sep = "\n"
 		}
-		desc = join([]string{`"""`, desc, `"""`}, sep)
+		block := join([]string{`"""`, strings.Replace(desc, `"""`, `\"""`, -1), `"""`}, sep)
+		if blockStringReadsBackAs(block, desc) {
+			desc = block
+		} else {
+			// not every value survives block-string indentation and blank-line
+			// removal (or can be delimited by triple quotes): quote it instead
+			desc = quoteString(desc)
+		}
 	}
 	return desc
+}
+
+// blockStringReadsBackAs reports whether text lexes as exactly one block string
+// whose value is want.
+func blockStringReadsBackAs(text, want string) bool {
+	lex := lexer.Lex(source.NewSource(&source.Source{Body: []byte(text)}))
+	tok, err := lex(0)
+	if err != nil || tok.Kind != lexer.BLOCK_STRING || tok.Value != want || tok.End != len(text) {
+		return false
+	}
+	return true
+}
+
+// quoteString prints a GraphQL StringValue: only the escapes the GraphQL lexer
+// understands are used (strconv.Quote emits \a, \v, \x7f, \U0001F600 ... which it
+// rejects).
+func quoteString(s string) string {
+	var b strings.Builder
+	b.WriteByte('"')
+	for _, r := range s {
+		switch r {
+		case '"':
+			b.WriteString(`\"`)
+		case '\\':
+			b.WriteString(`\\`)
+		case '\b':
+			b.WriteString(`\b`)
+		case '\f':
+			b.WriteString(`\f`)
+		case '\n':
+			b.WriteString(`\n`)
+		case '\r':
+			b.WriteString(`\r`)
+		case '\t':
+			b.WriteString(`\t`)
+		default:
+			if r < 0x20 || r == 0x7f {
+				fmt.Fprintf(&b, `\u%04X`, r)
+			} else {
+				b.WriteRune(r)
+			}
+		}
+	}
+	b.WriteByte('"')
+	return b.String()
 }
 
 func toSliceString(slice interface{}) []string {
@@ -375,7 +428,7 @@ var printDocASTReducer = map[string]visitor.VisitFunc{
 	"StringValue": func(p visitor.VisitFuncParams) (string, interface{}) {
 		switch node := p.Node.(type) {
 		case *ast.StringValue:
-			return visitor.ActionUpdate, strconv.Quote(node.Value)
+			return visitor.ActionUpdate, quoteString(node.Value)
 		case map[string]interface{}:
 			return visitor.ActionUpdate, `"` + getMapValueString(node, "Value") + `"`
 		}
